@@ -117,6 +117,12 @@ int main(void) {
                 bool r = qhashtbl_put(t, k, v, nv); int e = errno;
                 scribble_free(k, nk + 1); scribble_free(v, nv);
                 if (r) printf("true"); else printf("fail %s", ename(e));
+            } else if (!strcmp(op, "puthuge")) {
+                /* a value whose copy cannot be allocated (SIZE_MAX/2 bytes; the allocation fails before anything is read): the put is
+                   refused with ENOMEM and the table - this key's old value, the other keys, the count - is what it was */
+                size_t nk = unhex(a1, b1); char *k = dupstr(b1, nk); static char some[16];
+                bool r = qhashtbl_put(t, k, some, SIZE_MAX / 2); int e = errno; scribble_free(k, nk + 1);
+                if (r) printf("true"); else printf("fail %s", ename(e));
             } else if (!strcmp(op, "putnull")) {
                 size_t nk = unhex(a1, b1); char *k = dupstr(b1, nk);
                 bool r = qhashtbl_put(t, k, NULL, 3); int e = errno; scribble_free(k, nk + 1);
